@@ -150,10 +150,10 @@ def pipeline_cfg(kinds, *, first_suffix=False, bad=None, overrides=None, suffix_
 
 
 def make_cv(costs, *, dmin, subpix=1, type_measure="min", window_size=1, vm=None, conf=None, row0=0, col0=0,
-            cmax=100, measure="sad", conf_dtype=np.float32) -> xr.Dataset:
+            cmax=100, measure="sad", conf_dtype=np.float32, cv_dtype=np.float32) -> xr.Dataset:
     """A cost-volume dataset shaped like the output of the matching_cost step.
     costs: (row, col, nd) float array; samples are dmin + k/subpix; conf: (names, (row, col, n) array)."""
-    costs = np.asarray(costs, dtype=np.float32)
+    costs = np.asarray(costs, dtype=cv_dtype)
     rows, cols, nd = costs.shape
     disp = dmin + np.arange(nd) / float(subpix) if subpix != 1 else np.arange(dmin, dmin + nd)
     cv = xr.Dataset({"cost_volume": (["row", "col", "disp"], costs.copy())},
